@@ -284,7 +284,7 @@ func TestC14_MembershipKeys(t *testing.T) {
 // ---- (b) filter: history engine with the C14 oracle ----
 
 func TestC14_FilterHistory(t *testing.T) {
-	w := hWeights{deliver: 44, ack: 24, save: 14, savefail: 3, savebegin: 5, saveend: 5, crash: 3, absorbed: 38, maxVb: scale(5, 10), minOps: 1, maxOps: scale(60, 200)}
+	w := hWeights{deliver: 44, ack: 24, save: 14, savefail: 3, savebegin: 5, saveend: 5, crash: 3, failover: 3, end: 3, transientOnly: true, absorbed: 38, maxVb: scale(5, 10), minOps: 1, maxOps: scale(60, 200)}
 	// internal-key kinds dominate the absorbed events of this unit
 	known := isKnown("C01", sigF1)
 	rapid.Check(t, func(rt *rapid.T) {
